@@ -76,6 +76,11 @@ let () =
      | Inr GenOutOfFuel -> print_string (if use_real then "GEN not-ok-in-real-dump\n" else "GEN fuel\n")
      | Inl (sts, tb) ->
          print_string "GEN ok\n";
+         (* the generator's intermediate sets: nullable nonterminals, FIRST of every nonterminal (LRGen.nterm_empty / nterm_first) *)
+         let ne = nterm_empty g in
+         let bits l = String.concat "" (List.map (fun b -> if b then "1" else "0") l) in
+         Printf.printf "NULLABLE %s\n" (bits ne);
+         List.iteri (fun n f -> Printf.printf "FIRST %d %s\n" n (bits f)) (nterm_first g ne);
          Printf.printf "STATES %d\n" (List.length sts);
          List.iteri (fun i (st : lrstate) ->
            Printf.printf "S%d:" i;
